@@ -5,11 +5,12 @@ old text is still present -- a patch that rewrote such a line itself is reported
 import glob, os, shutil, subprocess, sys, tempfile
 VERIF = os.path.dirname(os.path.dirname(os.path.abspath(__file__)))
 OLD = sys.argv[1]
-EDITS = [("eqsig/fns/peaks_and_crossings.py", "    switched_peak_indices = np.take(peak_indices, new_peak_indices)\n",
-          "    # a constant series is reported by the peak finder as [0, 0] (its first and its last sample): each index is reported once\n"
-          "    switched_peak_indices = np.unique(np.take(peak_indices, new_peak_indices))\n"),
-         ("eqsig/single.py", "np.arange(points) / (2 * points * self.dt)", "np.arange(points) / (n_factor * self.dt)"),
-         ("eqsig/fns/frequency.py", "np.arange(points) / (2 * points * sig.dt)", "np.arange(points) / (len(fa) * sig.dt)")]
+EDITS = [("eqsig/im.py", "from scipy.integrate import cumulative_trapezoid\n", "from scipy.integrate import cumulative_trapezoid, trapezoid\n"),
+         ("eqsig/im.py", "np.trapz(", "trapezoid("),
+         ("eqsig/single.py", "import numpy as np\n\nfrom eqsig import exceptions\n", "import numpy as np\nfrom scipy.integrate import trapezoid\n\nfrom eqsig import exceptions\n"),
+         ("eqsig/single.py", "np.trapz(", "trapezoid("),
+         ("eqsig/fns/frequency.py", "import numpy as np\n\n\ndef get_sig_freq_range", "import numpy as np\nfrom scipy.integrate import trapezoid\n\n\ndef get_sig_freq_range"),
+         ("eqsig/fns/frequency.py", "np.trapz(", "trapezoid(")]       # F17 (earlier repairs were replayed when they were made: F15, F16)
 
 
 def sh(cmd, cwd=None):
